@@ -57,7 +57,8 @@ func isSnippetLine(l string, alphabet string) bool {
 			return false
 		}
 	}
-	return true
+	// comments of a snippet have no blank after the #, the ones the template writes do
+	return f[0] != "#"
 }
 
 func main() {
@@ -169,7 +170,7 @@ func main() {
 					r.Text = []string{}
 				}
 				for _, l := range sections[fmt.Sprintf("d_s%d_8080", i)] {
-					if isSnippetLine(l, "abA*") {
+					if isSnippetLine(l, "abA*#") {
 						r.Lines = append(r.Lines, chars(strings.TrimPrefix(l, "    ")))
 					}
 				}
@@ -212,7 +213,7 @@ func main() {
 					}
 					continue
 				}
-				if cur == "d_sg_8080" && isSnippetLine(l, "abA*") {
+				if cur == "d_sg_8080" && isSnippetLine(l, "abA*#") {
 					r.Lines = append(r.Lines, chars(strings.TrimPrefix(l, "    ")))
 				}
 			}
